@@ -13,13 +13,62 @@ import (
 	"sync"
 	"time"
 
+	"github.com/ulikunitz/xz"
+	"github.com/ulikunitz/xz/lzma"
+
 	"verif/sim"
+	"verif/simio"
 )
 
 // ConcTask is one caller task owning one writer or one reader.
 type ConcTask struct {
 	W *WCase `json:"w,omitempty"`
 	R *RCase `json:"r,omitempty"`
+	// Bad: a writer configuration the library must refuse. The caller tries to
+	// create the writer and, as callers do, formats the rejected configuration
+	// for its log afterwards. Observable: whether the constructor failed, and
+	// what reached the sink.
+	Bad *BadCfg `json:"bad,omitempty"`
+}
+
+// BadCfg is an invalid writer configuration.
+type BadCfg struct {
+	Format  string `json:"format"` // xz | lzma | lzma2
+	Matcher int    `json:"matcher,omitempty"`
+	LC      int    `json:"lc,omitempty"`
+	DictCap int    `json:"dict_cap,omitempty"`
+	BufSize int    `json:"buf_size,omitempty"`
+}
+
+func runBad(b *BadCfg, yield func()) (string, string) {
+	if yield != nil {
+		yield()
+	}
+	sink := simio.NewSink(simio.SinkPlan{})
+	var err error
+	var logged string
+	p := guard(func() {
+		props := &lzma.Properties{LC: b.LC, LP: 0, PB: 2}
+		switch b.Format {
+		case "xz":
+			cfg := xz.WriterConfig{Properties: props, DictCap: b.DictCap, BufSize: b.BufSize, Matcher: lzma.MatchAlgorithm(b.Matcher)}
+			_, err = cfg.NewWriter(sink.Writer())
+			logged = fmt.Sprintf("%+v", cfg)
+		case "lzma":
+			cfg := lzma.WriterConfig{Properties: props, DictCap: b.DictCap, BufSize: b.BufSize, Matcher: lzma.MatchAlgorithm(b.Matcher)}
+			_, err = cfg.NewWriter(sink.Writer())
+			logged = fmt.Sprintf("%+v", cfg)
+		default:
+			cfg := lzma.Writer2Config{Properties: props, DictCap: b.DictCap, BufSize: b.BufSize, Matcher: lzma.MatchAlgorithm(b.Matcher)}
+			_, err = cfg.NewWriter2(sink.Writer())
+			logged = fmt.Sprintf("%+v", cfg)
+		}
+	})
+	_ = logged
+	h := sha256.New()
+	fmt.Fprintf(h, "bad %v %v\n", err != nil, p != nil)
+	h.Write(sink.Image)
+	return fmt.Sprintf("%x", h.Sum(nil)[:12]), fmt.Sprintf("invalid %s configuration: refused=%v panic=%v sink=%d bytes", b.Format, err != nil, p != nil, len(sink.Image))
 }
 
 // ConcCase is a concurrency scenario over N caller tasks.
@@ -34,6 +83,9 @@ type ConcCase struct {
 	SchedSeed uint64     `json:"sched_seed,omitempty"`
 	Procs     int        `json:"procs,omitempty"`
 	Reps      int        `json:"reps,omitempty"`
+	// SharedProps (lock-step only): the writer tasks re-tune one common
+	// lzma.Properties value, each right before it creates its writer.
+	SharedProps bool `json:"shared_props,omitempty"`
 }
 
 func genConcTask(r *sim.Rng) ConcTask {
@@ -66,6 +118,20 @@ func genConcTask(r *sim.Rng) ConcTask {
 		if w.LZ != nil && w.LZ.HasSize() {
 			w.LZ.Size, w.LZ.SizeInHeader = int64(n), true
 		}
+	}
+	if r.Chance(1, 12) {
+		b := &BadCfg{Format: sim.Pick(r, []string{"xz", "lzma", "lzma2"}), LC: 3, DictCap: 1 << 16, BufSize: 4096}
+		switch r.Intn(4) {
+		case 0:
+			b.Matcher = sim.Pick(r, []int{2, 3, 7, 200})
+		case 1:
+			b.LC = sim.Pick(r, []int{9, 12, -1})
+		case 2:
+			b.DictCap = sim.Pick(r, []int{1, 100, 4095, -5})
+		default:
+			b.BufSize = sim.Pick(r, []int{1, 100, 272, -1})
+		}
+		return ConcTask{Bad: b}
 	}
 	lim := sim.Pick(r, []int{300, 1500, 1500, 20000})
 	switch r.Intn(6) {
@@ -105,6 +171,10 @@ func genConcTask(r *sim.Rng) ConcTask {
 
 func genConcCase(r *sim.Rng, tier string, idx int) *ConcCase {
 	c := &ConcCase{Mode: "lockstep", SchedSeed: r.Uint64()}
+	// (SharedProps is never generated: callers that re-tune one Properties value
+	// shared by several writers are outside "distinct instances" - the pinned
+	// xz.Writer itself reads the value again at every block start. The switch is
+	// kept for experiments only, see DESIGN.md §11.)
 	if os.Getenv("VERIF_C14_MODE") == "race" {
 		c.Mode = "free"
 		c.Procs = sim.Pick(r, []int{1, 4, 16})
@@ -147,8 +217,16 @@ func genConcCase(r *sim.Rng, tier string, idx int) *ConcCase {
 
 // runTask executes one task and returns a digest of everything observable.
 func runTask(t *ConcTask, yield func()) (digest string, detail string) {
+	return runTaskShared(t, yield, nil)
+}
+
+func runTaskShared(t *ConcTask, yield func(), shared any) (digest string, detail string) {
+	if t.Bad != nil {
+		return runBad(t.Bad, yield)
+	}
 	x := sim.NewCtx(false)
 	x.Yield = yield
+	x.Shared = shared
 	h := sha256.New()
 	if t.W != nil {
 		res := runWriter(t.W, x)
@@ -220,7 +298,7 @@ type schedEvent struct {
 // runLockstep runs the tasks as goroutines of which exactly one proceeds at a
 // time; the seeded scheduler picks the next one whenever the running task
 // parks. It returns the digests and the schedule.
-func runLockstep(tasks []ConcTask, seed uint64) (digests []string, details []string, schedule []int) {
+func runLockstep(tasks []ConcTask, seed uint64, shared any) (digests []string, details []string, schedule []int) {
 	n := len(tasks)
 	digests = make([]string, n)
 	details = make([]string, n)
@@ -246,7 +324,7 @@ func runLockstep(tasks []ConcTask, seed uint64) (digests []string, details []str
 				<-grant[i]
 			}
 			yield() // park before the first action
-			digests[i], details[i] = runTask(&tasks[i], yield)
+			digests[i], details[i] = runTaskShared(&tasks[i], yield, shared)
 		}(i)
 	}
 	r := sim.NewRng(seed)
@@ -336,7 +414,12 @@ func runConcCase(c *ConcCase, x *sim.Ctx) *sim.Violation {
 		// the number of Ps the Go scheduler may use is part of the scenario
 		// (per-P caches such as sync.Pool behave differently with one P)
 		defer runtime.GOMAXPROCS(runtime.GOMAXPROCS([]int{1, 1, 4, 16}[c.SchedSeed%4]))
-		d, det, sched := runLockstep(c.Tasks, c.SchedSeed)
+		var shared any
+		if c.SharedProps {
+			shared = &lzma.Properties{}
+			x.Probe("shared-properties-value")
+		}
+		d, det, sched := runLockstep(c.Tasks, c.SchedSeed, shared)
 		x.Step("schedule", int64(len(sched)))
 		x.Count("context-switches", int64(switches(sched)))
 		x.Ev("schedule %v", sched)
@@ -438,6 +521,9 @@ func switches(s []int) int {
 }
 
 func taskKind(t *ConcTask) string {
+	if t.Bad != nil {
+		return "invalid-config-" + t.Bad.Format
+	}
 	if t.W != nil {
 		return "writer-" + t.W.Format
 	}
